@@ -26,8 +26,8 @@ from . import keys as K
 from .sched import Scheduler, count_steps
 
 OPS = ["ensure_kid", "thumbprint", "as_dict_pub", "as_dict", "keyset_new", "get_kid", "sign", "sign2", "sign_ks", "verify", "verify2", "encrypt", "encrypt2", "decrypt", "decrypt2",
-       "decrypt_zip", "decrypt_zip_over"]
-CRYPTO = {"sign", "sign2", "sign_ks", "verify", "verify2", "encrypt", "encrypt2", "decrypt", "decrypt2", "decrypt_zip", "decrypt_zip_over"}
+       "decrypt_zip", "decrypt_zip_over", "verify_forged", "ks_export", "ks_verify", "ks_sign"]
+CRYPTO = {"sign", "sign2", "sign_ks", "verify", "verify2", "encrypt", "encrypt2", "decrypt", "decrypt2", "decrypt_zip", "decrypt_zip_over", "verify_forged", "ks_export", "ks_verify", "ks_sign"}
 ZIP_SMALL = b"compressed plaintext " * 40
 ZIP_OVER = 256_000 + 300
 _ZTOK: dict = {}
@@ -65,8 +65,14 @@ class World:
         self.alg = {"EC:P-256": "ES256", "RSA2048": "RS256", "OKP:Ed25519": "EdDSA", "oct256": "HS256"}[kind]
         self.key2 = J.fresh_jkey(K.get(kind, 1))
         self.ks = KeySet([self.key2])
+        # a shared key set of several keys (a published JWKS that is also used for signing and verifying by kid)
+        self.ks3_jwks = [K.get(kind, 1), K.get("oct512" if self.jwk["kty"] != "oct" else "EC:P-384", 0), K.get("OKP:Ed25519" if self.jwk["kty"] != "OKP" else "EC:secp256k1", 1)]       # only set-0 suits self.alg
+        self.ks3 = KeySet([J.fresh_jkey({**j, "kid": f"set-{i}"}) for i, j in enumerate(self.ks3_jwks)][::-1])     # (not in kid order)
+        self.token3 = R.jws_compact(R.jdump({"alg": self.alg, "kid": "set-0"}), b"signed for the set", self.alg, self.ks3_jwks[0])
         self.token = R.jws_compact(R.jdump({"alg": self.alg}), b"signed payload", self.alg, self.jwk)
         self.token2 = R.jws_compact(R.jdump({"alg": self.alg, "cty": "two"}), b"the second signed payload", self.alg, self.jwk)
+        h1, _, s1 = self.token.split(".")
+        self.forged = h1 + "." + self.token2.split(".")[1] + "." + s1        # token one's header and signature over token two's payload
         self.jalg = "ECDH-ES" if kind.startswith("EC") else ("A256KW" if kind == "oct256" else "RSA-OAEP")
         self.jalg2 = {"ECDH-ES": "ECDH-ES+A128KW", "A256KW": "PBES2-HS256+A128KW", "RSA-OAEP": "RSA-OAEP-256"}[self.jalg]
         self.hdr2 = {"alg": self.jalg2, "enc": "A128CBC-HS256", **({"p2c": 8} if self.jalg2.startswith("PBES2") else {})}
@@ -96,6 +102,19 @@ class World:
             def f(): return ("jws", jws.serialize_compact({"alg": w.alg}, b"message", w.key, algorithms=[w.alg]))
         elif name == "sign2":
             def f(): return ("jws", jws.serialize_compact({"alg": w.alg, "cty": "2"}, b"message", w.key, algorithms=[w.alg, "PS384"]))
+        elif name == "verify_forged":
+            def f():
+                from joserfc.errors import BadSignatureError
+                try:
+                    return ("forged", jws.deserialize_compact(w.forged, w.pub, algorithms=[w.alg]).payload)
+                except BadSignatureError:
+                    return ("forged", None)
+        elif name == "ks_export":
+            def f(): return ("jwks", w.ks3.as_dict(private=False) if w.jwk["kty"] != "oct" else w.ks3.as_dict())
+        elif name == "ks_verify":
+            def f(): return ("payload3", jws.deserialize_compact(w.token3, w.ks3, algorithms=[w.alg]).payload)
+        elif name == "ks_sign":
+            def f(): return ("jws3", jws.serialize_compact({"alg": w.alg}, b"message", w.ks3, algorithms=[w.alg]))
         elif name == "verify2":
             def f(): return ("payload2", jws.deserialize_compact(w.token2, w.pub, algorithms=[w.alg]).payload)
         elif name == "encrypt2":
@@ -155,6 +174,17 @@ class World:
             except Exception as e:  # noqa
                 return f"produced token does not decrypt: {e}"
         if kind == "plaintext": return None if v == b"secret plaintext" else "decrypted plaintext differs"
+        if kind == "payload3": return None if v == b"signed for the set" else "verified payload differs"
+        if kind == "jwks":
+            kids = sorted(d.get("kid") for d in v["keys"])
+            return None if kids == ["set-0", "set-1", "set-2"] else f"exported key set lists {kids}"
+        if kind == "jws3":
+            try:
+                hdr, body = R.jws_verify_compact(v, J.pub(self.ks3_jwks[0]))
+                return None if body == b"message" and hdr.get("kid") == "set-0" else "token of the key set differs"
+            except Exception as e:  # noqa
+                return f"token produced with the key set does not verify: {e}"
+        if kind == "forged": return None if v is None else f"a token with a spliced payload was verified and returned {v!r}"
         if kind == "plaintext_zip": return None if v == ZIP_SMALL else "decompressed plaintext differs"
         if kind == "over": return None if v == "refused" else f"plaintext beyond the decompression limit returned ({v} octets)"
         return f"unknown result {kind}"
@@ -392,6 +422,8 @@ def run(ctx: Ctx) -> None:
     ctx.vacuity(rm, allow_zero=())
     ctx.sensitivity("Shared", "Shared_dev_Rebind")
     ctx.sensitivity("Shared", "Shared_dev_IterShared")
+    ctx.tlc("SharedSet", timeout=300)
+    ctx.sensitivity("SharedSet", "SharedSet_dev_ExportSortsInPlace")
     import multiprocessing as mp
     from .common import NCPU, _pool_init
     _pool_init()
